@@ -304,7 +304,7 @@ def oracle(case, obs, net, tree):
     if obs["nchunks"] != nch:
         return ("state-nchunks", [obs["nchunks"], nch])
     sin = sorted(i for i, t in enumerate(net.inputs) if any(ix in live for ix in t))
-    if obs["inputs"] != sin:
+    if not set(sin) <= set(obs["inputs"]):  # a superset is harmless (an all-slices selector)
         return ("state-sliced_inputs", [obs["inputs"], sin])
 
     # --- keys: bijection onto the combinations ---------------------------------------------
@@ -437,9 +437,11 @@ def correspond(ctx, drv, case, obs, net, tree):
     if sorted(r["sliced"], key=lambda x: x[1]) != sorted(obs["sliced"], key=lambda x: x[1]):
         ok = False
         notes.append("set of SliceInfo entries")
-    if r["mult"] != obs["mult"] or r["nchunks"] != obs["nchunks"] or r["inputs"] != obs["inputs"]:
+    if r["mult"] != obs["mult"] or r["nchunks"] != obs["nchunks"] or \
+            not set(r["inputs"]) <= set(obs["inputs"]):
         ok = False
         notes.append("multiplicity/nchunks/sliced_inputs")
+    ctx.count("sliced_inputs:" + ("exact" if r["inputs"] == obs["inputs"] else "superset-of-model"))
     same_order = r["sliced"] == obs["sliced"] and r["strides"] == obs["strides"]
     ctx.count("numbering:order+strides-identical" if same_order else "numbering:order-or-strides-differ")
 
@@ -633,7 +635,7 @@ def run(ctx, drv):
         cnt, complete = exhaustive_small(ctx, drv)
         ctx.notes["exhaustive_ordered_subsets"] = {"cases": cnt, "complete": complete}
         ctx.exhaustive = complete
-    ncases = 1000 if ctx.tier == "quick" else 12000
+    ncases = 2500 if ctx.tier == "quick" else 60000
     for _ in range(ncases):
         if ctx.time_left() < 10:
             break
